@@ -128,6 +128,15 @@ func genExchange(t *rapid.T, lc labCfg) exchangeCase {
 		}
 		r.BodyLen = len(r.Body)
 		r.Parts = partition(t, len(r.Body), 4, "resp")
+		if r.Framing == "chunked" && rapid.IntRange(0, 3).Draw(t, "trailers") == 0 {
+			// trailer fields after the last chunk (gRPC status, checksums, Server-Timing), announced or not
+			pool := []lab.KV{{K: "X-Checksum", V: "sha256=0b5c"}, {K: "Grpc-Status", V: "0"}, {K: "Server-Timing", V: "db;dur=53"}, {K: "X-Checksum", V: "crc=77"}, {K: "x-odd-case-trailer", V: "a, b"}}
+			for i, n := 0, rapid.IntRange(1, 3).Draw(t, "ntrailers"); i < n; i++ {
+				r.Trailer = append(r.Trailer, rapid.SampledFrom(pool).Draw(t, "trailer"))
+			}
+			r.TrailerAnnounced = rapid.Bool().Draw(t, "trailer_announced")
+			ec.labels = append(ec.labels, "response-trailers")
+		}
 		if len(r.Body) >= 32768 {
 			ec.labels = append(ec.labels, "body>=32KiB")
 		}
@@ -435,6 +444,14 @@ func judgeSeen(lc labCfg, req lab.RawRequest, script lab.RespScript, seen *lab.S
 	if !bytes.Equal(out.Body, wantBody) {
 		return fmt.Sprintf("response body: backend sent %d bytes, client received %d bytes (first difference at %d)", len(wantBody), len(out.Body), firstDiff(wantBody, out.Body))
 	}
+	if bodyAllowed && script.Framing == "chunked" {
+		// trailer fields are end-to-end header fields sent after the body
+		wantT := lab.EndToEnd(script.Trailer)
+		gotT := lab.EndToEnd(lab.HeaderToLines(out.Trailer))
+		if d := lab.DiffHeaders(wantT, gotT, nil); d != "" {
+			return fmt.Sprintf("response trailer fields (announced in the head: %v): %s", script.TrailerAnnounced, d)
+		}
+	}
 	return ""
 }
 
@@ -465,10 +482,11 @@ func TestC01Transparency(t *testing.T) {
 	sub.Floor("5xx", 0.05)
 	sub.Floor("interim-103", 0.05)
 	sub.Floor("streaming", 0.04)
+	sub.Floor("response-trailers", 0.02)
 	if os.Getenv("VERIF_HELIOS") != "" {
 		sub.Floor("front=helios-binary", 0.05)
 	}
-	lab.Assume("L2: in nine labs of ten handler composition and server timeouts replicate cmd/helios/server.go (lab.BuildHandler, lab.NewSocketLab), in one of ten the front is the real helios binary started with the same configuration; HTTP/1.1 over loopback only; Expect: 100-continue, CONNECT, OPTIONS *, trailers and TLS backends are not generated")
+	lab.Assume("L2: in nine labs of ten handler composition and server timeouts replicate cmd/helios/server.go (lab.BuildHandler, lab.NewSocketLab), in one of ten the front is the real helios binary started with the same configuration; HTTP/1.1 over loopback only; Expect: 100-continue, CONNECT, OPTIONS *, request trailers and TLS backends are not generated")
 	lab.Check(t, sub, 6000, 120000, func(rt *rapid.T) {
 		lc := genLab(rt)
 		n := rapid.IntRange(1, 4).Draw(rt, "exchanges")
